@@ -1,6 +1,6 @@
 SPECIFICATION Spec
 CONSTANTS
-  MaxSteps = 5
+  MaxSteps = 4
   MaxIdx = 3
   Watch = FALSE
   Ms = TRUE
